@@ -227,7 +227,9 @@ def main():
         fam_scens = cfg["families"](rng, tier)
         # structure-preserving sweeps of single fields / list lengths of the abstract messages (gen.sweep_scenarios)
         sweeps = gen.sweep_scenarios(rng, fam_scens, per=1, cap=(400 if tier == "quick" else 4000))
-        scens = corpus_scens + fam_scens + sweeps
+        # history-level noise: allowed-set changes between calls, two scenarios interleaved on disjoint parser instances
+        noise = gen.api_noise_scenarios(rng, fam_scens, cap=(120 if tier == "quick" else 1200))
+        scens = corpus_scens + fam_scens + sweeps + noise
     nouf_bin = None
     if cfg.get("two_builds"):
         rc2, hout2, nouf_bin = runner.harness_build(features_default=False)
